@@ -55,6 +55,11 @@ func c10Pool() []string {
 		// buffer kept from an earlier, longer assembly would show through)
 		/* 22 */ "\tDB \"" + strings.Repeat("N", 9000) + "\"\n\tDD 0xeeeeeeee,0xeeeeeeee\n",
 		/* 23 */ "\tDB 1\n\tRESB 5000\n\tDB 2\n\tRESB 0x2000-$\n\tDB 3\n\tALIGNB 4096\n\tDB 4\n",
+		// 24-26: conditional jumps of neighbouring condition codes in their near forms (tables indexed by condition), in
+		// separate programs and both in one
+		/* 24 */ "\tCMP AX,1\n\tJE far\n\tJB far\n\tJL far\n\tRESB 300\nfar:\n\tHLT\n",
+		/* 25 */ "\tCMP AX,1\n\tJNE far\n\tJAE far\n\tJGE far\n\tRESB 300\nfar:\n\tHLT\n",
+		/* 26 */ "[BITS 32]\n\tCMP EAX,1\n\tJE far\n\tJNE far\n\tJBE near1\n\tJA far\nnear1:\n\tRESB 300\nfar:\n\tRET\n",
 	}
 }
 
@@ -122,15 +127,16 @@ func c10Custom(r *core.Run, tier string) {
 		rwg.Add(1)
 		go func(i int, src string) {
 			defer rwg.Done()
-			runs := make([]*core.Result, 5)
+			nruns := 5
+			runs := make([]*core.Result, nruns)
 			var iw sync.WaitGroup
-			for k := 0; k < 5; k++ {
+			for k := 0; k < nruns; k++ {
 				iw.Add(1)
 				go func(k int) { defer iw.Done(); runs[k] = p.CLI(src, nil, false) }(k)
 			}
 			iw.Wait()
 			first := runs[0]
-			for k := 1; k < 5; k++ {
+			for k := 1; k < nruns; k++ {
 				x := runs[k]
 				if !bytes.Equal(first.Out, x.Out) || first.ExitCode != x.ExitCode {
 					r.AddFail("fresh_processes", fmt.Sprintf("p%d", i), map[string]string{"prog": fmt.Sprint(i)}, []string{src},
@@ -138,12 +144,32 @@ func c10Custom(r *core.Run, tier string) {
 				}
 			}
 			rmu.Lock()
-			fresh += 5
+			fresh += int64(nruns)
 			refs[i] = c10Ref{out: first.Out, exists: first.OutExists, parseErr: first.ParseErr != "", errs: strings.Join(core.ErrLines(first), "\n")}
 			rmu.Unlock()
 		}(i, src)
 	}
 	rwg.Wait()
+	// sources with bytes >= 0x80 in a string: what the command emits for them is C05-F01's subject and differs from the
+	// in-process API, so they are not in the history pool - but 40 fresh processes of the command must agree with one
+	// another (a choice made by map iteration order shows in roughly one process of eight)
+	for ci, src := range []string{"\tDB \"caf\u00e9 \u65e5\u672c\",0\n\tMOV AL,1\n", "\tDB \"\x83\x41\xb1\"\n\tHLT ; \x93\xfa\n"} {
+		runs := make([]*core.Result, 40)
+		var iw sync.WaitGroup
+		for k := range runs {
+			iw.Add(1)
+			go func(k int) { defer iw.Done(); runs[k] = p.CLI(src, nil, false) }(k)
+		}
+		iw.Wait()
+		fresh += int64(len(runs))
+		for k := 1; k < len(runs); k++ {
+			if !bytes.Equal(runs[0].Out, runs[k].Out) || runs[0].ExitCode != runs[k].ExitCode {
+				r.AddFail("fresh_processes", fmt.Sprintf("non-ASCII source %d", ci), map[string]string{"prog": fmt.Sprintf("nonascii%d", ci)}, []string{src},
+					core.Fail{Facet: "determinism", Dev: "fresh_processes_disagree", Detail: fmt.Sprintf("run 0: %x exit %d; run %d: %x exit %d", runs[0].Out, runs[0].ExitCode, k, runs[k].Out, runs[k].ExitCode)})
+				break
+			}
+		}
+	}
 	ops := c10Alphabet(len(pool))
 	var mu sync.Mutex
 	states := map[string]int{}
